@@ -2,7 +2,8 @@
    Property-level statements only; each is closed by [exact] of a lemma of proofs/BiMapP.v. *)
 From Coq Require Import List Bool Arith ZArith.
 Import ListNotations.
-From HV Require Import lib.PyDict lib.Harness model.BiMapM spec.BiMapS proofs.BiMapP.
+From HV Require Import lib.PyDict lib.Harness model.BiMapM spec.BiMapS proofs.BiMapP
+  model.BiMapHeap spec.BiMapWorldS proofs.BiMapHeapP.
 
 Section C18.
   Context {L R : Type} (leqb : L -> L -> bool) (reqb : R -> R -> bool).
@@ -46,12 +47,59 @@ Section C18.
   Theorem C18_init_rejects_iff_not_injective : forall m : list (L * R),
     init reqb m = None <-> ~ NoDup (map snd m).
   Proof. exact (init_rejects_iff reqb reqb_spec). Qed.
+  (* ---- several maps and the caller's seed mappings in one heap of dict objects (model/BiMapHeap.v):
+          every map owns its state ("construction from a mapping" copies) ---- *)
+
+  (* any history of constructions (from nothing, from a seed mapping, from another map), mutators on any map
+     and writes of the caller to the seed mappings behaves like the value-level world in which each step
+     changes only the component it addresses; in particular every map variable represents its own live pairs *)
+  Theorem C18_world_refines : forall (seeds : list (list (L * R))) nm ops,
+    Forall (fun m => NoDup (map fst m)) seeds ->
+    WRep leqb reqb (wrun leqb reqb (world0 seeds nm) ops) (a_wrun leqb reqb (aworld0 seeds nm) ops).
+  Proof. exact (world_reachable leqb reqb leqb_spec reqb_spec). Qed.
+  Theorem C18_world_step_refines : forall w aw o, WRep leqb reqb w aw ->
+    WRep leqb reqb (fst (wstep leqb reqb w o)) (fst (a_wstep leqb reqb aw o)) /\
+    snd (wstep leqb reqb w o) = snd (a_wstep leqb reqb aw o).
+  Proof. exact (wstep_refines leqb reqb leqb_spec reqb_spec). Qed.
+
+  (* every map variable of every reachable world is a bijection, whatever was done to the seeds and to the other maps *)
+  Theorem C18_world_bijection : forall (seeds : list (list (L * R))) nm ops i b,
+    Forall (fun m => NoDup (map fst m)) seeds ->
+    slot_value (wrun leqb reqb (world0 seeds nm) ops) i = Some b -> Bij leqb reqb b.
+  Proof. exact (world_bij leqb reqb leqb_spec reqb_spec). Qed.
+
+  (* frame: a step leaves every map variable and every seed mapping it does not address exactly as it was *)
+  Theorem C18_frame : forall (seeds : list (list (L * R))) nm ops o,
+    let w := wrun leqb reqb (world0 seeds nm) ops in
+    (forall j, ~ addr_slot o j -> slot_value (fst (wstep leqb reqb w o)) j = slot_value w j) /\
+    (forall s, s < w_ns w -> ~ addr_seed o s -> seed_content (fst (wstep leqb reqb w o)) s = seed_content w s).
+  Proof. exact (world_frame leqb reqb). Qed.
+
+  (* the constructed map holds exactly what the one-map constructor makes of the source's content at that moment;
+     a rejected construction changes nothing *)
+  Theorem C18_constructor_takes_a_snapshot : forall (w : @world L R) j s m,
+    Sep w -> src_content w s = Some m -> j < length (w_slots w) ->
+    match init reqb m with
+    | Some b => slot_value (fst (wstep leqb reqb w (WNew j s))) j = Some b /\ snd (wstep leqb reqb w (WNew j s)) = Done
+    | None => wstep leqb reqb w (WNew j s) = (w, NotBijection)
+    end.
+  Proof. exact (wnew_effect leqb reqb). Qed.
 End C18.
 
 (* non-vacuity: a concrete accepted constructor argument with falsy keys (0) *)
 Example C18_premises_satisfiable :
   NoDup (map fst [(0, 5); (1, 0)]%Z) /\ init Z.eqb [(0, 5); (1, 0)]%Z <> None.
 Proof. split; [repeat constructor; cbn; intuition discriminate | discriminate]. Qed.
+
+(* non-vacuity of the world theorems: two maps built from one seed with falsy keys, the first one and the seed
+   are then modified; the second map still holds the seed's original pairs *)
+Example C18_world_example :
+  let ops := [WNew 0 (SrcSeed 0); WNew 1 (SrcSeed 0); WOp 0 (InsL 2 0); WOp 0 (DelR 5); WSeedSet 0 7 7]%Z in
+  let w := wrun Z.eqb Z.eqb (world0 [[(0, 5); (1, 0)]%Z] 2) ops in
+  option_map (@fwd Z Z) (slot_value w 1) = Some [(0, 5); (1, 0)]%Z /\
+  option_map (@fwd Z Z) (slot_value w 0) = Some [(2, 0)]%Z /\
+  seed_content w 0 = [(0, 5); (1, 0); (7, 7)]%Z.
+Proof. vm_compute. repeat split. Qed.
 
 Print Assumptions C18_bijection_reachable.
 Print Assumptions C18_refines_live_pairs.
@@ -61,3 +109,8 @@ Print Assumptions C18_lookups_agree.
 Print Assumptions C18_len_iter_items.
 Print Assumptions C18_items_are_live_pairs.
 Print Assumptions C18_init_rejects_iff_not_injective.
+Print Assumptions C18_world_refines.
+Print Assumptions C18_world_step_refines.
+Print Assumptions C18_world_bijection.
+Print Assumptions C18_frame.
+Print Assumptions C18_constructor_takes_a_snapshot.
